@@ -8,14 +8,25 @@ QUICK_BOUNDS = [(1, 3, 1, 1), (2, 2, 1, 1), (3, 1, 1, 1), (2, 2, 2, 1)]
 THOROUGH_BOUNDS = [(1, 4, 3, 2), (2, 2, 2, 2), (2, 3, 1, 1), (3, 1, 2, 1)]
 HUGE_BOUNDS = [(3, 2, 1, 1)]      # 2.0e6 states, ~10 min: C02 and C08 thorough only
 # the same exploration with the bar heights passed as other numeric types (bounds, codec)
-QUICK_CODECS = [((2, 2, 1, 1), 'float-cm'), ((2, 2, 1, 1), 'decimal-cm'), ((1, 3, 1, 1), 'float-cm')]
-THOROUGH_CODECS = [((2, 2, 2, 1), 'float-cm'), ((2, 2, 2, 1), 'decimal-cm'), ((2, 2, 1, 1), 'decimal-mm'), ((1, 4, 3, 2), 'float-cm'), ((3, 1, 1, 1), 'float-cm'),
+QUICK_CODECS = [((2, 2, 1, 1), 'float-cm'), ((2, 2, 1, 1), 'decimal-cm'), ((1, 3, 1, 1), 'float-cm'), ((2, 2, 1, 1), 'decimal-10m'), ((2, 1, 1, 1), 'decimal-1m'),
+                ((2, 1, 1, 1), 'int'), ((2, 2, 1, 1), 'bibs:int')]
+THOROUGH_CODECS = [((2, 2, 2, 1), 'decimal-10m'), ((2, 2, 1, 1), 'decimal-1m'), ((2, 2, 1, 1), 'int'), ((2, 2, 2, 1), 'bibs:int'), ((3, 1, 1, 1), 'bibs:int'), ((2, 2, 2, 1), 'float-cm'), ((2, 2, 2, 1), 'decimal-cm'), ((2, 2, 1, 1), 'decimal-mm'), ((1, 4, 3, 2), 'float-cm'), ((3, 1, 1, 1), 'float-cm'),
                    ((2, 3, 1, 1), 'float-cm')]
 
 
 def explore_codecs(rep, want, tier, prefixes):
     for bt, codec in (QUICK_CODECS if tier == 'quick' else THOROUGH_CODECS):
         explore(rep, want, [bt], prefixes, codec=codec)
+
+
+def set_codecs(codec):
+    """'bibs:<name>' selects a bib codec, anything else a height codec"""
+    hjmc.set_codec(None)
+    hjmc.set_bibs(None)
+    if codec and codec.startswith('bibs:'):
+        hjmc.set_bibs(codec[5:])
+    elif codec:
+        hjmc.set_codec(codec)
 
 
 def explore(rep, want, bounds_list, prefixes, max_states=None, codec=None):
@@ -25,11 +36,11 @@ def explore(rep, want, bounds_list, prefixes, max_states=None, codec=None):
     phases = {}
     for bt in bounds_list:
         t0 = time.time()
-        hjmc.set_codec(codec)
+        set_codecs(codec)
         try:
             ex = hjmc.Explorer(hjmc.Bounds(*bt), want=want, max_states=max_states).run()
         finally:
-            hjmc.set_codec(None)
+            set_codecs(None)
         for k in tot:
             tot[k] += ex.stats.get(k, 0)
         for k, v in ex.states_by_phase.items():
@@ -94,7 +105,7 @@ def replay_history(rec, want):
     comp, model = hjmc.new_comp(), hjmc.Model()
     RuleViolation = hjmc.RV()
     longc = 'competition' in case
-    hjmc.set_codec(case.get('codec'))
+    set_codecs(case.get('codec'))
     if longc:
         from decimal import Decimal
         from data import hj_cards
